@@ -487,13 +487,22 @@ fn cpc_case(ctx: &mut Ctx, case: &Json) {
 
 fn td_case(ctx: &mut Ctx, case: &Json) {
     let mut rng = Rng::new(case.u64("seed").unwrap_or(0));
-    let class = IMAGE_CLASSES[(case.u64("ty").unwrap_or(0) as usize) % IMAGE_CLASSES.len()];
+    // the image classes of C10 plus the two short forms (8-byte empty image, header + one value)
+    let ty = (case.u64("ty").unwrap_or(0) as usize) % (IMAGE_CLASSES.len() + 2);
+    let class = if ty < IMAGE_CLASSES.len() { IMAGE_CLASSES[ty] } else if ty == IMAGE_CLASSES.len() { "single-value" } else { "empty" };
     let k = *rng.pick(&[10u16, 30, 100, 200, 500]);
-    let im = synth_image(&mut rng, class, k);
+    let im = match class {
+        "single-value" => {
+            let v = (rng.normal() * 1000.0 * 8.0).round() / 8.0;
+            spec::tdigest::TdImage { k, empty: false, single: true, reverse_merge: rng.chance(0.5), min: v, max: v, centroids: vec![(v, 1)], buffered: vec![] }
+        }
+        "empty" => spec::tdigest::TdImage { k, empty: true, single: false, reverse_merge: false, min: f64::INFINITY, max: f64::NEG_INFINITY, centroids: vec![], buffered: vec![] },
+        _ => synth_image(&mut rng, class, k),
+    };
     let f = |x: f64| (x as f32) as f64;
     let mut fp = Fp::new();
     for encoding in ["native-double", "native-float", "reference-double", "reference-float"] {
-        if encoding.starts_with("reference") && !im.buffered.is_empty() {
+        if encoding.starts_with("reference") && (!im.buffered.is_empty() || im.centroids.is_empty()) {
             continue;
         }
         let (bytes, is_f32) = match encoding {
@@ -505,6 +514,7 @@ fn td_case(ctx: &mut Ctx, case: &Json) {
         fp.bytes(&bytes[..bytes.len().min(128)]);
         let what = format!("t-digest image class={} encoding={} k={} centroids={} buffered={}", class, encoding, k, im.centroids.len(), im.buffered.len());
         ctx.cover(&format!("td_{}", encoding));
+        ctx.cover(&format!("td_class_{}", class));
         ctx.evals(1);
         let mut d = match TDigestMut::deserialize(&bytes, is_f32) {
             Ok(d) => d,
@@ -516,7 +526,11 @@ fn td_case(ctx: &mut Ctx, case: &Json) {
         let float_means = encoding.ends_with("float");
         let (emin, emax) = if encoding == "native-float" { (f(im.min), f(im.max)) } else { (im.min, im.max) };
         let mut problems = vec![];
-        if d.k() != k || d.total_weight() != im.total_weight() || d.min_value() != Some(emin) || d.max_value() != Some(emax) {
+        if im.centroids.is_empty() {
+            if !d.is_empty() || d.k() != k || d.total_weight() != 0 || d.min_value().is_some() || d.quantile(0.5).is_some() {
+                problems.push("empty image does not decode to an empty digest".to_string());
+            }
+        } else if d.k() != k || d.total_weight() != im.total_weight() || d.min_value() != Some(emin) || d.max_value() != Some(emax) {
             problems.push(format!("k {} total {} min {:?} max {:?} want {} {} {} {}", d.k(), d.total_weight(), d.min_value(), d.max_value(), k, im.total_weight(), emin, emax));
         }
         if im.buffered.is_empty() {
